@@ -117,6 +117,12 @@ def _len_hook(E, v):
 def _getitem(E, v, idx):
     if not isinstance(v, SymList):
         return NotImplemented
+    if isinstance(idx, slice) and idx.start is None and idx.stop is None and idx.step in (-1, None, 1):
+        if idx.step == -1:  # l[::-1] is list(reversed(l))
+            n_ = v.len_z()
+            j_ = z3.Int("rev!j")
+            return SymList(v.length, [z3.Lambda([j_], z3.Select(c, n_ - 1 - j_)) for c in v.cols], v.sorts, v.is_tuple, f"reversed({v.name})")
+        return SymList(v.length, list(v.cols), v.sorts, v.is_tuple, f"copy({v.name})")  # l[:] : a copy
     if isinstance(idx, slice) or not isinstance(idx, (int, Sym)) or isinstance(idx, bool):
         raise Unsupported("slice / non-integer index on a list of symbolic length")
     iz = C.as_int(idx)
